@@ -343,7 +343,7 @@ static void run(uint64_t seed, bool lock) {
     }
   }
   if (vrt_races() > 0) vrt_event("ORACLE race %lu unordered payload accesses", (unsigned long)vrt_races());
-  vrt_event("stats steps %lu switches %lu", vrt_steps(), vrt_switches());
+  vrt_event("stats steps %lu switches %lu stale %lu", vrt_steps(), vrt_switches(), (unsigned long)vrt_stale_reads());
   vrt_end();
   vrt_dump(stdout);
   delete cp;
